@@ -243,6 +243,9 @@ let builder_ops (max : z) (thr : n) (ops : string list) : string =
          | UbtOk bt -> let (b', ok) = append_blob_tx !b bt in
            b := b'; Printf.sprintf "b:%s:%s" (show_bool ok) (cur ())
          | _ -> "b:undecodable")
+      | 'z' ->
+        let (b', ok) = append_blob_tx !b { btx_tx = bytes_of_hex (arg ()); btx_blobs = [] } in
+        b := b'; Printf.sprintf "z:%s:%s" (show_bool ok) (cur ())
       | 'x' ->
         (match export !b with
          | Ok (b', sq) -> b := b'; "x:ok:" ^ show_square sq
@@ -259,6 +262,10 @@ let builder_ops (max : z) (thr : n) (ops : string list) : string =
               "s:ok:" ^ string_of_n i ^ ":" ^ show_outcome string_of_n (blob_share_length !b (z_of_string p) (z_of_string j))
             | Err -> "s:err" | Fault -> "s:fault")
          | _ -> failwith "bad s op")
+      | 'l' ->
+        (match String.split_on_char '/' (arg ()) with
+         | [p; j] -> "l:" ^ show_outcome string_of_n (blob_share_length !b (z_of_string p) (z_of_string j))
+         | _ -> failwith "bad l op")
       | 'w' ->
         (match get_wrapped_pfb !b (z_of_string (arg ())) with
          | Ok (b', p) -> b := b'; "w:ok:" ^ hex_of_bytes p.pfb_tx ^ ":" ^ show_list string_of_n p.pfb_idx
@@ -477,6 +484,31 @@ let run (op : string) (a : string array) : string =
   | "b64enc" -> hex_of_bytes (base64_encode (h 0))
   | "b64dec" -> (match base64_decode (h 0) with Some b -> "ok:" ^ hex_of_bytes b | None -> "err")
   (* C19json end *)
+  (* helpers begin: the small public helpers (Model/Helpers.v) *)
+  | "sortblobs" -> show_list show_blob (sort_blobs (List.map blob_of_string (split_list (arg 0))))
+  | "blobcmp" -> string_of_z (blob_compare (blob_of_string (arg 0)) (blob_of_string (arg 1)))
+  | "blobv0" -> show_outcome show_blob (new_v0_blob (h 0) (h 1))
+  | "blobv1" -> show_outcome show_blob (new_v1_blob (h 0) (h 1) (parse_signer (arg 2)))
+  | "blobempty" ->
+    let b = blob_of_string (arg 0) in show_bool (blob_is_empty b) ^ ":" ^ string_of_n (blob_data_len b)
+  | "commitments" ->
+    show_outcome (show_list hex_of_bytes) (commitments_sha (List.map blob_of_string (split_list (arg 0))) (n 1))
+  | "parseinfo" ->
+    show_outcome (fun i -> String.concat ":" [string_of_n (b2n i); string_of_n (info_version i); show_bool (info_start i)])
+      (parse_info_byte (n2b (n 0)))
+  | "range" ->
+    let st r = show_zrange r ^ "/" ^ show_bool (range_is_empty r) in
+    let r = new_range (z 0) (z 1) in
+    String.concat " " [st empty_range; st r; st (range_add r (z 2))]
+  | "nsrepeat" -> show_outcome (show_list hex_of_bytes) (ns_repeat (h 0) (z 1))
+  | "nsempty" -> show_bool (ns_is_empty (h 0))
+  | "frombytes" -> show_outcome (fun shs -> show_big_list (to_bytes shs)) (from_bytes (hex_list (arg 0)))
+  | "sharebytes" -> show_outcome hex_of_bytes (bind (new_share (h 0)) (fun s -> Ok (share_to_bytes s)))
+  | "sqequals" -> show_bool (square_equals (hex_list (arg 0)) (hex_list (arg 1)))
+  | "sqsizeof" -> string_of_n (square_size_of (hex_list (arg 0)))
+  | "sparsecount" ->
+    show_outcome string_of_n (sparse_count_after (List.map sparse_item_of_string (split_list (arg 0))))
+  (* helpers end *)
   | _ -> failwith ("unknown op " ^ op)
 
 let () =
